@@ -25,7 +25,10 @@ FLAVOURS = {
     "std":  ["-std=c++14", "-fext-numeric-literals", "-O1", "-g0", "-w", "-ffp-contract=off"],
     "asan": ["-std=c++14", "-fext-numeric-literals", "-O1", "-g", "-w", "-ffp-contract=off",
              "-fsanitize=address,undefined,float-cast-overflow", "-fno-sanitize-recover=all",
-             "-fno-omit-frame-pointer"],
+             "-fno-omit-frame-pointer",
+             # gcc 12's ASan does not instrument the inlined load of a std::complex element at -O1: libstdc++'s own
+             # bounds assertions (vector::operator[], ...) catch an index past the end of a std::vector regardless
+             "-D_GLIBCXX_ASSERTIONS"],
 }
 
 
@@ -115,7 +118,7 @@ def build(flavour="std", harness=("impl_kick",), want_binary=True, log=None):
         th = tree_hash()
         hh = headers_hash()
         flags = FLAVOURS[flavour]
-        outdir = os.path.join(CACHE, "bin", flavour + "-" + th[:16])
+        outdir = os.path.join(CACHE, "bin", flavour + "-" + sha(th, " ".join(flags))[:16])      # tree AND flags
         os.makedirs(outdir, exist_ok=True)
         cfgdir = gen_config(os.path.join(CACHE, "cfg", hh[:16]))
         incs = ["-I" + cfgdir, "-I" + os.path.join(REPO, "inc")] + INC
